@@ -190,11 +190,16 @@ class Frame:
             # the name of the block we're in, otherwise None.
             self.block: str | None = None
 
+            # whether the frame is inside the body of a loop of the same
+            # python function, that is if break and continue are valid.
+            self.in_loop_body = False
+
         else:
             self.symbols = Symbols(parent.symbols, level=level)
             self.require_output_check = parent.require_output_check
             self.buffer = parent.buffer
             self.block = parent.block
+            self.in_loop_body = parent.in_loop_body
 
         # a toplevel frame is the root + soft frames such as if conditions.
         self.toplevel = False
@@ -612,6 +617,7 @@ class CodeGenerator(NodeVisitor):
     ) -> tuple[Frame, MacroRef]:
         """Dump the function def of a macro or call block."""
         frame = frame.inner()
+        frame.in_loop_body = False
         frame.symbols.analyze_node(node)
         macro_ref = MacroRef(node)
 
@@ -1175,6 +1181,7 @@ class CodeGenerator(NodeVisitor):
     def visit_For(self, node: nodes.For, frame: Frame) -> None:
         loop_frame = frame.inner()
         loop_frame.loop_frame = True
+        loop_frame.in_loop_body = True
         test_frame = frame.inner()
         else_frame = frame.inner()
 
@@ -1940,9 +1947,13 @@ class CodeGenerator(NodeVisitor):
         self.write(self.derive_context(frame))
 
     def visit_Continue(self, node: nodes.Continue, frame: Frame) -> None:
+        if not frame.in_loop_body:
+            self.fail("'continue' outside loop", node.lineno)
         self.writeline("continue", node)
 
     def visit_Break(self, node: nodes.Break, frame: Frame) -> None:
+        if not frame.in_loop_body:
+            self.fail("'break' outside loop", node.lineno)
         self.writeline("break", node)
 
     def visit_Scope(self, node: nodes.Scope, frame: Frame) -> None:
